@@ -62,9 +62,24 @@ example : tableMatch env.word (str% "scp:x") = true ∧ tableMatch env.word (str
 def chainSuffixes : List Str :=
   config.rules.filterMap fun r => match r with | .endsWith s _ => some s | _ => none
 
-theorem chainSuffixes_eq : chainSuffixes =
-    [(str% ".wav"), (str% ".hdf5"), (str% ".npy"), (str% ".npz"), (str% ".pt"), (str% ".sph"), (str% "|")] := by
-  decide
+/-- … which are exactly the documented ones (in whatever order) -/
+theorem chainSuffixes_documented : ∀ s, s ∈ chainSuffixes ↔
+    s ∈ [(str% ".wav"), (str% ".hdf5"), (str% ".npy"), (str% ".npz"), (str% ".pt"), (str% ".sph"), (str% "|")] := by
+  have h1 : chainSuffixes.all ([(str% ".wav"), (str% ".hdf5"), (str% ".npy"), (str% ".npz"), (str% ".pt"),
+      (str% ".sph"), (str% "|")].contains ·) = true := by decide
+  have h2 : [(str% ".wav"), (str% ".hdf5"), (str% ".npy"), (str% ".npz"), (str% ".pt"), (str% ".sph"),
+      (str% "|")].all (chainSuffixes.contains ·) = true := by decide
+  intro s
+  constructor <;> intro h
+  · simpa using List.all_eq_true.1 h1 s h
+  · simpa using List.all_eq_true.1 h2 s h
+
+/-- the chain consists of the table regex, the soundfile test and `endswith` tests – nothing else -/
+theorem rules_shape : config.rules.all (fun r => match r with
+      | .tableRegex _ => true | .lastSegInSf => true | .endsWith s _ => chainSuffixes.contains s) = true
+    ∧ config.rules.any (fun r => match r with | .tableRegex _ => true | _ => false) = true
+    ∧ config.rules.contains .lastSegInSf = true
+    ∧ config.inferElse = .ioError := by decide
 
 /-- `inferKind_total`: for every string the inference returns a type or raises `IOError` – never anything
 else. -/
@@ -81,31 +96,35 @@ table rspecifier, whose last `.`-segment is not a soundfile type and that end wi
 theorem no_suffix_ioerror_iff (e : Env) (name : Str) :
     infer e name = .error .ioError ↔
       (tableMatch e.word name = false ∧ lastSeg name ∉ e.sf ∧ ∀ s ∈ chainSuffixes, hasSuffix name s = false) := by
-  rw [chainSuffixes_eq]
-  unfold infer inferForceAs
+  obtain ⟨hshape, htab, hsf, hels⟩ := rules_shape
+  have herr : infer e name = .error .ioError ↔ ∀ r ∈ config.rules, r.fires e name = false := by
+    have := infer_error_iff config.rules config.inferElse e name
+    rwa [hels] at this
+  rw [herr]
   constructor
   · intro h
-    split at h
-    · cases h
-    · rename_i hnone
-      rw [List.findSome?_eq_none_iff] at hnone
-      have hr := fun r hr => hnone r hr
-      simp only [config, List.mem_cons, List.not_mem_nil, or_false, forall_eq_or_imp, forall_eq, Rule.apply] at hr
-      simp only [List.mem_cons, List.not_mem_nil, or_false, forall_eq_or_imp, forall_eq]
-      obtain ⟨h0, h1, h2, h3, h4, h5, h6, h7, h8⟩ := hr
-      simp only [ite_eq_right_iff, reduceCtorEq, imp_false, Bool.not_eq_true, List.contains_eq_mem,
-        decide_eq_true_eq] at h0 h1 h2 h3 h4 h5 h6 h7 h8
-      exact ⟨h0, h1, h2, h3, h4, h5, h6, h7, h8⟩
-  · rintro ⟨h0, h1, hs⟩
-    simp only [List.mem_cons, List.not_mem_nil, or_false, forall_eq_or_imp, forall_eq] at hs
-    obtain ⟨h2, h3, h4, h5, h6, h7, h8⟩ := hs
-    have : config.rules.findSome? (Rule.apply e name) = none := by
-      rw [List.findSome?_eq_none_iff]
-      intro r hr
-      simp only [config, List.mem_cons, List.not_mem_nil, or_false] at hr
-      rcases hr with rfl | rfl | rfl | rfl | rfl | rfl | rfl | rfl | rfl <;>
-        simp_all [Rule.apply]
-    rw [this]; rfl
+    refine ⟨?_, ?_, ?_⟩
+    · obtain ⟨r, hr, hrt⟩ := List.any_eq_true.1 htab
+      have := h r hr
+      cases r <;> simp [Rule.fires] at hrt this ⊢
+      exact this
+    · have := h .lastSegInSf (by simpa using hsf)
+      simpa [Rule.fires] using this
+    · intro s hs
+      unfold chainSuffixes at hs
+      obtain ⟨r, hr, hrs⟩ := List.mem_filterMap.1 hs
+      have := h r hr
+      cases r <;> simp at hrs
+      subst hrs
+      simpa [Rule.fires] using this
+  · rintro ⟨h0, h1, hs⟩ r hr
+    have hsh := List.all_eq_true.1 hshape r hr
+    cases r with
+    | tableRegex fa => simpa [Rule.fires] using h0
+    | lastSegInSf => simpa [Rule.fires] using h1
+    | endsWith s fa =>
+      simp only [Rule.fires]
+      exact hs s (by simpa using hsh)
 
 theorem no_suffix_ioerror (e : Env) (name : Str) (h0 : tableMatch e.word name = false)
     (h1 : lastSeg name ∉ e.sf) (hs : ∀ s ∈ chainSuffixes, hasSuffix name s = false) :
@@ -124,14 +143,6 @@ theorem table_rspecifier (e : Env) (name : Str) (h : tableMatch e.word name = tr
   simp [infer, inferForceAs, config, Rule.apply, h]
 
 example : infer env (str% "ark:foo.npy") = .ok (str% "table") := by decide
-
-/-- a name whose last `.`-segment is a soundfile type gets that type -/
-theorem sf_suffix (e : Env) (name : Str) (h0 : tableMatch e.word name = false) (h : lastSeg name ∈ e.sf) :
-    infer e name = .ok (lastSeg name) := by
-  simp [infer, inferForceAs, config, List.findSome?, Rule.apply, h0, h]
-
-example : tableMatch env.word (str% "a.b.flac") = false ∧ lastSeg (str% "a.b.flac") ∈ env.sf
-    ∧ infer env (str% "a.b.flac") = .ok (str% "flac") := by decide
 
 /-- **`suffix_maps_to_kind`**: each documented suffix gives its type, for every stem, on every installation
 (whether or not soundfile is there), provided the name is not a Kaldi table rspecifier. -/
@@ -166,6 +177,18 @@ theorem suffix_maps_to_kind (e : Env) (stem : Str) :
   · by_cases hm : (str% "sph") ∈ e.sf <;>
       simp [infer, inferForceAs, config, List.findSome?, Rule.apply, h0, hs, hm, hasSuffix, List.isSuffixOf,
         List.reverse_append, List.isPrefixOf]
+
+/-- a name whose last `.`-segment is a soundfile type gets that type -/
+theorem sf_suffix (e : Env) (name : Str) (h0 : tableMatch e.word name = false) (h : lastSeg name ∈ e.sf) :
+    infer e name = .ok (lastSeg name) := by
+  by_cases hw : hasSuffix name (str% ".wav") = true
+  · obtain ⟨stem, rfl⟩ := (hasSuffix_iff name _).1 hw
+    rw [lastSeg_append_dot stem (str% "wav") (by decide)]
+    exact (suffix_maps_to_kind e stem).1 h0
+  · simp [infer, inferForceAs, config, Rule.apply, h0, h, hw]
+
+example : tableMatch env.word (str% "a.b.flac") = false ∧ lastSeg (str% "a.b.flac") ∈ env.sf
+    ∧ infer env (str% "a.b.flac") = .ok (str% "flac") := by decide
 
 /-- a name ending in `|` (and in no soundfile type) is a Kaldi input pipe -/
 theorem pipe_suffix (e : Env) (stem : Str) (h0 : tableMatch e.word (stem ++ (str% "|")) = false)
